@@ -75,6 +75,69 @@ for v := range ch {
 	YIELD(v)
 }
 RETNIL`, "range:chan"),
+		G("range-map-clear-during-loop", `
+m := map[int]int{1: 10, 2: 20, 3: 30, 4: 40}
+n := 0
+for range m {
+	n++
+	clear(m)
+}
+YIELD(n)
+RETNIL`, "range:map", "range-mutation"),
+		G("range-map-delete-others-during-loop", `
+m := map[int]int{1: 10, 2: 20, 3: 30, 4: 40, 5: 50}
+n := 0
+for k, v := range m {
+	n++
+	tr.U(v)
+	for o := 1; o <= 5; o++ {
+		if o != k {
+			delete(m, o)
+		}
+	}
+	YIELD(1)
+}
+YIELD(n)
+RETNIL`, "range:map", "range-mutation"),
+		func() *e1.Program {
+			p := G("range-map-nan-keys", `
+m := map[float64]int{}
+m[math.NaN()] = 1
+m[math.NaN()] = 2
+m[1.5] = 4
+sum, n := 0, 0
+for k, v := range m {
+	tr.U(k)
+	sum += v
+	n++
+}
+YIELD(sum*10 + n)
+RETNIL`, "range:map")
+			p.Imports = []string{"math"}
+			return p
+		}(),
+		G("range-string-stray-continuation-bytes", `
+for i, r := range "ab\x80cd\xbf\xc0\xc1\xf5\xe4\xb8\x80\x80" {
+	YIELD(i*100000 + int(r))
+}
+RETNIL`, "range:string"),
+		G("range-key-only-assign-form", `
+k := -1
+xs := []string{"x", "y", "z"}
+for k = range xs {
+	YIELD(k)
+}
+YIELD(k)
+ch := make(chan int, 2)
+ch <- 7
+ch <- 8
+close(ch)
+last := -1
+for last = range ch {
+	tr.V(1, last)
+}
+YIELD(last)
+RETNIL`, "range-form:k="),
 		G("range-slice-of-slices-nested", `
 xss := [][]int{{1, 2}, {}, {3}}
 for i, xs := range xss {
